@@ -1159,3 +1159,89 @@ Lemma unfixed_panics :
   progress_bar_unfixed 250 100 24 = BPanic /\ progress_bar_unfixed 3 (-5) 24 = BPanic /\
   pct_text mdr_exact false 250 100 = [50; 53; 48; 37]%N.
 Proof. vm_compute. repeat split. Qed.
+
+(* ------------------------------------------------------------------------------------ *)
+(* the order of the callbacks: the callbacks of well-formed files, in the order of file_ops,
+   are words of the language cb_lang_ok *)
+
+(* the steps of one phase: non-decreasing from [last], within the announced size r *)
+Fixpoint steps_in (r last : Z) (l : list step_arg) : bool :=
+  match l with
+  | [] => true
+  | a :: l' => let s := fst (fst a) in (last <=? s) && (s <=? r) && steps_in r s l'
+  end.
+Fixpoint steps_last (last : Z) (l : list step_arg) : Z :=
+  match l with
+  | [] => last
+  | a :: l' => steps_last (fst (fst a)) l'
+  end.
+
+Lemma cb_steps_sized x : forall l last, steps_in x last l = true ->
+  fold_left cb_next (map mk_step l) (CbSized x last) = CbSized x (steps_last last l).
+Proof.
+  induction l as [|[[z now] [[t s] e]] l IH]; intros last H; [reflexivity|].
+  cbn [steps_in fst] in H. apply andb_true_iff in H. destruct H as [H1 H2].
+  cbn [map fold_left mk_step cb_next steps_last fst]. rewrite H1. apply IH. exact H2.
+Qed.
+
+Lemma cb_steps_data r : forall l last, steps_in r last l = true ->
+  fold_left cb_next (map mk_step l) (CbData r last) = CbData r (steps_last last l).
+Proof.
+  induction l as [|[[z now] [[t s] e]] l IH]; intros last H; [reflexivity|].
+  cbn [steps_in fst] in H. apply andb_true_iff in H. destruct H as [H1 H2].
+  cbn [map fold_left mk_step cb_next steps_last fst]. rewrite H1. apply IH. exact H2.
+Qed.
+
+(* a file whose steps are in order and reach the end of each phase *)
+Definition file_wf (full : Z) (resume : option (list step_arg * Z)) (steps : list step_arg) : Prop :=
+  0 <= full /\
+  match resume with
+  | None => steps_in full (-1) steps = true /\ steps_last (-1) steps = full
+  | Some (hs, m) => steps_in full (-1) hs = true /\ m = Z.max (steps_last (-1) hs) 0 /\ m <= full /\
+                    steps_in (full - m) (-1) steps = true /\ steps_last (-1) steps = full - m
+  end.
+
+Lemma cb_file_ops nm full resume steps done : file_wf full resume steps ->
+  fold_left cb_next (file_ops nm full resume steps done) CbFiles = CbFiles.
+Proof.
+  intros [Hf H]. unfold file_ops. cbn [fold_left cb_next].
+  destruct done as [[zd nowd] [[td sd] ed]].
+  destruct resume as [[hs m]|].
+  - destruct H as [H1 [H2 [Hm [H3 H4]]]]. cbn [app fold_left cb_next].
+    replace (0 <=? full) with true by (symmetry; apply Z.leb_le; lia).
+    rewrite <- app_assoc, fold_left_app, (cb_steps_sized full hs (-1) H1).
+    cbn [app fold_left cb_next]. rewrite <- H2, Z.eqb_refl, Z.eqb_refl.
+    rewrite fold_left_app, (cb_steps_data (full - m) steps (-1) H3).
+    cbn [fold_left mk_done cb_next]. rewrite H4, (Z.max_l (full - m) 0) by lia. rewrite Z.eqb_refl. reflexivity.
+  - destruct H as [H1 H2]. cbn [app fold_left cb_next].
+    replace (0 <=? full) with true by (symmetry; apply Z.leb_le; lia).
+    rewrite fold_left_app, (cb_steps_sized full steps (-1) H1).
+    cbn [fold_left mk_done cb_next]. rewrite H2, (Z.max_l full 0) by lia. rewrite Z.eqb_refl. reflexivity.
+Qed.
+
+(* a whole transfer: onNum, then the files one after the other *)
+Definition fplan := (str * Z * option (list step_arg * Z) * list step_arg * step_arg)%type.
+Definition plan_ops (p : fplan) : list op :=
+  let '(nm, full, resume, steps, done) := p in file_ops nm full resume steps done.
+Definition plan_wf (p : fplan) : Prop :=
+  let '(nm, full, resume, steps, done) := p in file_wf full resume steps.
+
+Lemma cb_transfer_in_language n : forall plans, Forall plan_wf plans ->
+  cb_lang_ok (OpNum n :: concat (map plan_ops plans)) = true.
+Proof.
+  intros plans H. unfold cb_lang_ok. cbn [fold_left cb_next].
+  assert (E : fold_left cb_next (concat (map plan_ops plans)) CbFiles = CbFiles).
+  { induction H as [|[[[[nm full] resume] steps] done] l Hp _ IH]; [reflexivity|].
+    cbn [map concat plan_ops]. rewrite fold_left_app. cbn [plan_wf] in Hp.
+    rewrite (cb_file_ops nm full resume steps done Hp). exact IH. }
+  rewrite E. reflexivity.
+Qed.
+
+(* the order of the fourth-round seeded change is not a word of the language: the last step of
+   the first file delivered after the second file has been announced *)
+Lemma cb_late_step_rejected :
+  cb_lang_ok [OpNum 2; OpName [97%N]; OpSize 65536; OpStep 0 0 [] [] []; OpDone 0 [] [] [];
+              OpName [98%N]; OpStep 65536 0 [] [] []; OpSize 2097152; OpStep 0 0 [] [] []] = false /\
+  cb_lang_ok [OpNum 2; OpName [97%N]; OpSize 65536; OpStep 0 0 [] [] []; OpStep 65536 0 [] [] []; OpDone 0 [] [] [];
+              OpName [98%N]; OpSize 2097152; OpStep 0 0 [] [] []; OpStep 2097152 0 [] [] []; OpDone 0 [] [] []] = true.
+Proof. vm_compute. split; reflexivity. Qed.
